@@ -485,7 +485,10 @@ func (lmd *Daemon) initializePeers(ctx context.Context) {
 			} else {
 				peer.Stop()
 				peer.data.Store(nil)
+				// clients read the peer map while the configuration is reloaded
+				lmd.PeerMapLock.Lock()
 				lmd.PeerMapRemove(conn.ID)
+				lmd.PeerMapLock.Unlock()
 				// the settings have changed, a new peer has to be created from them
 				peer = nil
 			}
